@@ -32,11 +32,20 @@ inductive Out where
   | ok | raise | sysExit (code : Nat) | kbdInt
   deriving DecidableEq, Repr, Inhabited
 
-/-- Re-entrant actions a listener performs on the bus before it ends. -/
+/-- The lifecycle methods of the bus. -/
+inductive Meth where
+  | start | stop | exit | restart | graceful
+  deriving DecidableEq, Repr, Inhabited
+
+/-- Re-entrant actions a listener performs on the bus before it ends.  `call m` (a listener
+    calling `bus.start()/stop()/exit()/restart()/graceful()`) is interpreted by the second
+    generation model (`publishX` …, below) only; the first generation (`publish`) is the
+    call-free fragment and answers `outOfFuel` ("outside the fragment") for it. -/
 inductive Act where
   | sub (ch : Chan) (id prio : Nat) (out : Out)
   | unsub (ch : Chan) (id : Nat)
   | pub (ch : Chan)
+  | call (m : Meth)
   deriving DecidableEq, Repr, Inhabited
 
 structure Listener where
@@ -138,6 +147,7 @@ def runActs (pub : Pub) (w : W) : List Act → W × Option Exc
     match pub w ch with
     | (w', none) => runActs pub w' rest
     | (w', some e) => (w', some e)
+  | .call _ :: _ => (w, some .outOfFuel)
 
 /-- `except Exception:` branch of the publish loop: log unless the channel is `log`.
     Returns `some e` when `self.log` itself raised (that exception leaves `publish` at once). -/
@@ -288,5 +298,282 @@ def runCalls (fuel : Nat) (w : W) : List Call → W × List Res
     | (w', r) =>
       let (w'', rs) := runCalls fuel w' cs
       (w'', r :: rs)
+
+/-! ## Second generation: re-entrant lifecycle calls, nesting depth, state trace, atexit, wait/block
+
+  Everything above is the call-free fragment (listeners re-enter through subscribe / unsubscribe /
+  publish only).  Below, a listener may also call `start/stop/exit/restart/graceful` on the bus
+  (`Act.call`), every invocation is journalled with its publish-nesting depth, every assignment to
+  `self.state` is recorded in `tr`, `start()` registers `_clean_exit` with `atexit`, and the
+  single-threaded state logic of `wait` / `block` / `start_with_callback` / `_do_execv` is modelled
+  (sleep outcomes are a fault plan; `os.execv`, `os._exit`, and a poll loop that never ends are
+  terminal outcomes).  The driver runs THIS model; `CpProofs.C18X.conservative` shows it agrees
+  with the first generation on call-free scripts. -/
+
+structure XEntry where
+  ch : Chan
+  id : Nat
+  st : St
+  prio : Nat
+  depth : Nat
+  deriving DecidableEq, Repr, Inhabited
+
+/-- What can leave a bus method.  The last four never return to any Python frame of the bus
+    (`os._exit`, `os.execv`, an endless poll loop, model fuel exhausted). -/
+inductive XExc where
+  | chanFail (ids : List Nat)
+  | sysExit (code : Nat)
+  | kbdInt
+  | ioErr                 -- `IOError` out of `time.sleep` (only `wait` produces it)
+  | procExit (code : Nat)
+  | execv
+  | hang
+  | outOfFuel
+  deriving DecidableEq, Repr, Inhabited
+
+/-- `isinstance(e, Exception)`: what `except Exception:` catches. -/
+def XExc.caught : XExc → Bool
+  | .chanFail _ => true
+  | .ioErr => true
+  | _ => false
+
+/-- The process (or the model) is gone: no later call happens. -/
+def XExc.terminal : XExc → Bool
+  | .procExit _ => true
+  | .execv => true
+  | .hang => true
+  | .outOfFuel => true
+  | _ => false
+
+abbrev XO := Option XExc
+
+structure XW where
+  bus : Bus
+  j : List XEntry := []
+  depth : Nat := 0            -- number of `publish` frames on the Python stack
+  tr : List St := []          -- every value assigned to `self.state`, in order
+  atexit : Nat := 0           -- `_clean_exit` handlers registered so far
+  warns : Nat := 0            -- RuntimeWarnings issued by `_clean_exit`
+  deriving Repr, Inhabited
+
+abbrev XPub := XW → Chan → XW × XO
+
+/-- What a listener can re-enter (one fuel level down). -/
+structure Re where
+  pub : XPub
+  call : XW → Meth → XW × XO
+
+def xbind (r : XW × XO) (k : XW → XW × XO) : XW × XO :=
+  match r with
+  | (w, none) => k w
+  | (w, some e) => (w, some e)
+
+def runActsX (re : Re) (w : XW) : List Act → XW × XO
+  | [] => (w, none)
+  | .sub ch id prio out :: rest =>
+    runActsX re { w with bus := subscribe w.bus ch ⟨id, prio, [], out⟩ } rest
+  | .unsub ch id :: rest =>
+    runActsX re { w with bus := unsubscribe w.bus ch id } rest
+  | .pub ch :: rest =>
+    match re.pub w ch with
+    | (w', none) => runActsX re w' rest
+    | (w', some e) => (w', some e)
+  | .call m :: rest =>
+    match re.call w m with
+    | (w', none) => runActsX re w' rest
+    | (w', some e) => (w', some e)
+
+/-- How the listener call ended, as seen by the `try/except` of the publish loop. -/
+inductive Ended where
+  | out (o : Out)
+  | prop (e : XExc)
+
+def ended (l : Listener) : XO → Ended
+  | none => .out l.out
+  | some (.chanFail _) => .out .raise
+  | some .ioErr => .out .raise
+  | some (.sysExit c) => .out (.sysExit c)
+  | some .kbdInt => .out .kbdInt
+  | some (.procExit c) => .prop (.procExit c)
+  | some .execv => .prop .execv
+  | some .hang => .prop .hang
+  | some .outOfFuel => .prop .outOfFuel
+
+def pubLoopX (re : Re) (ch : Chan) : List Listener → XW → List Nat → XW × XO
+  | [], w, fails => (w, if fails.isEmpty then none else some (.chanFail fails))
+  | l :: rest, w, fails =>
+    match runActsX re { w with j := w.j ++ [⟨ch, l.id, w.bus.state, l.prio, w.depth⟩] } l.acts with
+    | (w2, r) =>
+    match ended l r with
+    | .prop e => (w2, some e)
+    | .out .ok => pubLoopX re ch rest w2 fails
+    | .out .kbdInt => (w2, some .kbdInt)
+    | .out (.sysExit c) => (w2, some (.sysExit (fixCode fails c)))
+    | .out .raise =>
+      if ch = .log then pubLoopX re ch rest w2 (fails ++ [l.id]) else
+      match re.pub w2 .log with
+      | (w3, none) => pubLoopX re ch rest w3 (fails ++ [l.id])
+      | (w3, some e) => (w3, some e)
+
+/-- `Bus.publish(channel)`: snapshot of the channel's listeners sorted by priority, the loop one
+    publish frame deeper, the frame popped however the loop ends. -/
+def publishWith (re : Re) : XPub := fun w ch =>
+  match lookup w.bus.chans ch with
+  | none => (w, none)
+  | some ls =>
+    match pubLoopX re ch (sortByPrio ls) { w with depth := w.depth + 1 } [] with
+    | (w', r) => ({ w' with depth := w.depth }, r)
+
+/-- `self.state = s` -/
+def setSt (w : XW) (s : St) : XW :=
+  { w with bus := { w.bus with state := s }, tr := w.tr ++ [s] }
+
+def stopW (pub : XPub) (w : XW) : XW × XO :=
+  xbind (pub (setSt w .stopping) .log) fun w1 =>
+  xbind (pub w1 .stop) fun w2 =>
+  pub (setSt w2 .stopped) .log
+
+def exitW (pub : XPub) (w : XW) : XW × XO :=
+  match (xbind (stopW pub w) fun w1 =>
+         xbind (pub (setSt w1 .exiting) .log) fun w2 =>
+         xbind (pub w2 .exit) fun w3 => pub w3 .log) with
+  | (w', some e) => if e.caught then (w', some (.procExit 70)) else (w', some e)
+  | (w', none) => if w.bus.state = .starting then (w', some (.procExit 70)) else (w', none)
+
+def startW (pub : XPub) (w : XW) : XW × XO :=
+  xbind (pub (setSt { w with atexit := w.atexit + 1 } .starting) .log) fun w1 =>
+  match (xbind (pub w1 .start) fun w2 => pub (setSt w2 .started) .log) with
+  | (w3, none) => (w3, none)
+  | (w3, some e) =>
+    if !e.caught then (w3, some e) else
+    xbind (pub w3 .log) fun w4 =>
+    match exitW pub w4 with
+    | (w5, none) => (w5, some e)
+    | (w5, some e') => if e'.caught then (w5, some e) else (w5, some e')
+
+def restartW (pub : XPub) (w : XW) : XW × XO :=
+  exitW pub { w with bus := { w.bus with execv := true } }
+
+def gracefulW (pub : XPub) (w : XW) : XW × XO :=
+  xbind (pub w .log) fun w1 => pub w1 .graceful
+
+def callWith (pub : XPub) (w : XW) : Meth → XW × XO
+  | .start => startW pub w
+  | .stop => stopW pub w
+  | .exit => exitW pub w
+  | .restart => restartW pub w
+  | .graceful => gracefulW pub w
+
+/-- What a listener running at re-entrancy level `n` can re-enter. -/
+def reAt : Nat → Re
+  | 0 => ⟨fun w _ => (w, some .outOfFuel), fun w _ => (w, some .outOfFuel)⟩
+  | n + 1 => ⟨publishWith (reAt n), callWith (publishWith (reAt n))⟩
+
+def publishX (fuel : Nat) : XPub := publishWith (reAt fuel)
+def callX (fuel : Nat) (w : XW) (m : Meth) : XW × XO := callWith (publishX fuel) w m
+
+/-- `Bus._clean_exit` (the atexit handler). -/
+def cleanExitW (pub : XPub) (w : XW) : XW × XO :=
+  if w.bus.state = .exiting then (w, none) else exitW pub { w with warns := w.warns + 1 }
+
+/-- The interpreter runs every registered handler; an exception in one is reported and the
+    next one still runs, unless the process is gone. -/
+def atexitRun (pub : XPub) : Nat → XW → XW × List XO
+  | 0, w => (w, [])
+  | n + 1, w =>
+    match cleanExitW pub w with
+    | (w', some e) =>
+      if e.terminal then (w', [some e]) else
+      match atexitRun pub n w' with
+      | (w'', rs) => (w'', some e :: rs)
+    | (w', none) =>
+      match atexitRun pub n w' with
+      | (w'', rs) => (w'', none :: rs)
+
+/-- How one `time.sleep(interval)` of the poll loop ends. -/
+inductive Sleep where
+  | ok | kbd | ioerr | sysExit (code : Nat)
+  deriving DecidableEq, Repr, Inhabited
+
+/-- `Bus.wait(state, interval, channel)`: `ticks` bounds the number of sleeps (one more = the loop
+    never ends as far as the harness looks: `hang`). -/
+def waitW (pub : XPub) (targets : List St) (ch : Option Chan) : Nat → List Sleep → XW → XW × XO
+  | 0, _, w => if targets.contains w.bus.state then (w, none) else (w, some .hang)
+  | n + 1, plan, w =>
+    if targets.contains w.bus.state then (w, none) else
+    match plan.headD .ok with
+    | .kbd => (w, some .kbdInt)
+    | .ioerr => (w, some .ioErr)
+    | .sysExit c => (w, some (.sysExit c))
+    | .ok =>
+      xbind (match ch with | none => (w, none) | some c => pub w c) fun w' =>
+      waitW pub targets ch n plan.tail w'
+
+/-- `Bus._do_execv` up to the `os.execv` call. -/
+def doExecvW (pub : XPub) (w : XW) : XW × XO :=
+  xbind (pub w .log) fun w1 => (w1, some .execv)
+
+/-- `Bus.block` without other threads. -/
+def blockW (pub : XPub) (ticks : Nat) (plan : List Sleep) (w : XW) : XW × XO :=
+  xbind (match waitW pub [.exiting] (some .main) ticks plan w with
+         | (w1, none) => (w1, none)
+         | (w1, some .kbdInt) => xbind (pub w1 .log) fun w2 => exitW pub w2
+         | (w1, some .ioErr) => xbind (pub w1 .log) fun w2 => exitW pub w2
+         | (w1, some (.sysExit c)) =>
+           xbind (pub w1 .log) fun w2 => xbind (exitW pub w2) fun w3 => (w3, some (.sysExit c))
+         | (w1, some e) => (w1, some e)) fun w4 =>
+  xbind (pub w4 .log) fun w5 =>
+  if w5.bus.execv then doExecvW pub w5 else (w5, none)
+
+/-- `Bus.start_with_callback(func)`: the callback thread's `wait(STARTED); func()` is run after
+    `start()` came back (second result: `none` = `func` was called). -/
+def swcW (pub : XPub) (ticks : Nat) (w : XW) : XW × List XO :=
+  match startW pub w with
+  | (w1, r) =>
+    if (r.map XExc.terminal).getD false then (w1, [r]) else
+    match waitW pub [.started] none ticks [] w1 with
+    | (w2, r2) => (w2, [r, r2])
+
+def defaultPriority : Nat := 50
+
+/-- `if priority is None: priority = getattr(callback, 'priority', 50)` -/
+def effPrio (arg attr : Option Nat) : Nat := arg.getD (attr.getD defaultPriority)
+
+inductive XCall where
+  | meth (m : Meth)
+  | publish (ch : Chan)
+  | subscribe (ch : Chan) (id : Nat) (arg attr : Option Nat) (acts : List Act) (out : Out)
+  | unsubscribe (ch : Chan) (id : Nat)
+  | atexit
+  | wait (targets : List St) (ch : Option Chan) (plan : List Sleep)
+  | block (plan : List Sleep)
+  | swc
+  deriving Repr, Inhabited
+
+/-- poll-loop bound shared with the harness -/
+def tickCap : Nat := 4
+
+def callTop (fuel : Nat) (w : XW) : XCall → XW × List XO
+  | .meth m => match callX fuel w m with | (w', r) => (w', [r])
+  | .publish ch => match publishX fuel w ch with | (w', r) => (w', [r])
+  | .subscribe ch id arg attr acts out =>
+    ({ w with bus := subscribe w.bus ch ⟨id, effPrio arg attr, acts, out⟩ }, [none])
+  | .unsubscribe ch id => ({ w with bus := unsubscribe w.bus ch id }, [none])
+  | .atexit => atexitRun (publishX fuel) w.atexit w
+  | .wait ts ch plan => match waitW (publishX fuel) ts ch tickCap plan w with | (w', r) => (w', [r])
+  | .block plan => match blockW (publishX fuel) tickCap plan w with | (w', r) => (w', [r])
+  | .swc => swcW (publishX fuel) tickCap w
+
+def anyTerminal (rs : List XO) : Bool := rs.any fun r => (r.map XExc.terminal).getD false
+
+/-- Run a call sequence; once the process is gone later calls do not happen. -/
+def runCallsX (fuel : Nat) (w : XW) : List XCall → XW × List (List XO)
+  | [] => (w, [])
+  | c :: cs =>
+    match callTop fuel w c with
+    | (w', rs) =>
+      if anyTerminal rs then (w', [rs]) else
+      match runCallsX fuel w' cs with
+      | (w'', rss) => (w'', rs :: rss)
 
 end CpModel.Bus
